@@ -330,7 +330,8 @@ fn doc_class(enc: &str, doc: &[u8]) -> String {
                     let strict = rsm2::with_curve(|c| c.decode_point(&b).is_ok());
                     if strict {
                         "hex of a valid point encoding".into()
-                    } else if b.len() == 65 && b[0] == 4 {
+                    } else if b.len() == 65 && b[0] == 4 && rsm2::with_curve(|c| BigUint::from_bytes_be(&b[1..33]) < c.p && BigUint::from_bytes_be(&b[33..65]) < c.p) {
+                        // both coordinates are field elements, the equation does not hold
                         "hex of 04||x||y that is not a curve point".into()
                     } else {
                         "hex of an undecodable point encoding".into()
